@@ -13,7 +13,9 @@ THEOREMS = ['Fsic.C02.' + n for n in [
     'solveT_min_gt_max', 'solveT_offset_oob', 'solveT_offset_copy', 'solveT_offset_zero', 'pyIndex_offset',
     'solveT_converges', 'solveT_fails', 'failed_count_is_max_iter', 'good_iff', 'converging_calls',
     'failing_calls', 'logged_transparent', 'solvePeriod_eq_solveT', 'solvePeriod_keyError',
-    'solveT_outcome_exists', 'solveT_history_irrelevant', 'solveT_stamp_history_irrelevant']] + ['Fsic.solveT_eq_outcome']
+    'solveT_outcome_exists', 'solveT_history_irrelevant', 'solveT_stamp_history_irrelevant',
+    'solveT_agreement', 'solveT_true_sound', 'solveT_false_sound', 'closeBy_iff', 'closeBy_blocked', 'closeBy_empty',
+    'closeBy_mono', 'converged_all_near']] + ['Fsic.solveT_eq_outcome', 'Fsic.outcome_agrees', 'Fsic.loop_cases', 'Fsic.loop_bound']
 RULE = ('scripted models: every outcome sequence over {close, same, edge(|diff|==tol), far, one-variable-far, nan, '
         '+inf, raise, warn}^L crossed with max_iter 0..L, min_iter 0..max_iter+1, errors x catch_first_error '
         '(exhaustive core), plus random cases over n, number of endogenous/check variables (incl. none), t in both '
@@ -23,7 +25,14 @@ RULE = ('scripted models: every outcome sequence over {close, same, edge(|diff|=
         'call that runs at least one pass')
 TRUSTED = ['Python/NumPy float64 comparison |a-b| < tol is IEEE-754 (mirrored by Lean Float in the driver instance)',
            'the scripted-model harness (solver_common.py) plays the same script on both sides']
-ASSUMPTIONS = ['-n <= t < n', 'check variables are float series', 'tol is a finite non-NaN float']
+ASSUMPTIONS = ['-n <= t < n (Python int or signed NumPy integer; bool and unsigned NumPy integers are outside: HEAD broadcasts / wraps them)',
+               'the Lean model computes on float64 check vectors: float64, float32 and object-of-float models are compared bit for bit; '
+               'int-dtype models use integer-valued scripts below 2**53 in the correspondence check, and magnitudes at and beyond 2**53 '
+               'are judged by an exact-integer oracle in Python only (stream bigint), not by the model',
+               'tol is a finite non-NaN float',
+               'variations the model cannot see (how user code stores a value, warning category, exception class, mixins, strict, '
+               'instance provenance, argument forms, member-like names, instance check list vs class CHECK) are generated on the '
+               'implementation side only and must leave the compared outcome unchanged']
 
 META = {
     "text": "Theorems for every interpretation (model, hooks, float semantics), option set, span length and period: rejection of min_iter>max_iter and out-of-span offsets without change, offset seeding, stop at the least accepted pass with status '.', iterations = passes run, True; otherwise 'F', iterations = max_iter, False / NonConvergenceError iff failures='raise'; hooks called exactly once and passes exactly k times (logged interpretation + simulation lemma); solve_t factors through the user state (solveT_eq_outcome): values, result and the stamp left do not depend on the status/iterations record of earlier calls. The model is tied to BaseModel.solve_t by exact comparison on scripted outcome lattices and on parser-built systems.",
@@ -83,6 +92,23 @@ def core_cases(L):
                             if a['k'] == 'warn':
                                 a['cat'] = CATS[(i // 3) % len(CATS)]
                         yield c
+
+
+def default_case(rng):
+    """Calls that leave out the keywords whose values are the documented defaults (tolerance 1e-10, max_iter 100, …), on
+    scripts whose moves (2**-30 = 9.3e-10) are above that tolerance: the omitted keyword must mean its default."""
+    n, nE = rng.choice([2, 3]), rng.choice([1, 2])
+    t = rng.randrange(-n, n)
+    seq = [rng.choice(['tiny2', 'tiny2', 'same']) for _ in range(rng.randint(1, 5))] + ['same']
+    o = mkopts(0, rng.choice([100, 100, 3, 8]), 0, rng.choice(['raise', 'ignore']), 'raise', True)
+    vals = [[2.0 ** -7 * (1 + i + p) for p in range(n)] for i in range(nE)]
+    pos = t + n if t < 0 else t
+    case = base_case(n, nE, list(range(nE)), t, o, {pos: seq}, vals=vals, tol=1e-10)
+    case['span_kind'] = rng.choice(sc.SPAN_KINDS)
+    case = sc.vary_implementation_side(case, rng)
+    case['argform'] = 'omit'
+    case['status'], case['iters'] = '-' * n, [-1] * n
+    return case
 
 
 def dtype_case(rng):
@@ -473,6 +499,8 @@ def _work(ctx, rep):
     rng = ctx.sub_rng('random')
     for chunk in range(0, n_random, 5000):
         check_cases(ctx, rep, [random_case(rng) for _ in range(min(5000, n_random - chunk))], 'random')
+    rng = ctx.sub_rng('defaults')
+    check_cases(ctx, rep, [default_case(rng) for _ in range((600 if ctx.tier == 'quick' else 60000) * ctx.scale // ctx.parts)], 'defaults')
     rng = ctx.sub_rng('dtype')
     n_dtype = (1200 if ctx.tier == 'quick' else 150000) * ctx.scale // ctx.parts
     for chunk in range(0, n_dtype, 5000):
